@@ -1,14 +1,16 @@
 """C05 - decided on the shared engine-history corpus by the C05.* clauses of spec/Trace_Doc.tla."""
-from checks import _shared
+from checks import _shared, _core
 
 LEVEL = "model_checking"
 
 
 def run(ctx):
-  return _shared.run_clauses(ctx, "C05.", lambda e: e['tag'] == 'rebuild',
+  return _core.merge(ctx, _shared.run_clauses(ctx, "C05.", lambda e: e['tag'] == 'rebuild',
                              "every 5th bundle of every history a fresh engine loads the same metadata and data columns only and recalculates from scratch; clause C05.same: all projected cells (formula columns included) equal those of the incrementally maintained engine; formulas of the shared corpus are clean (no volatile or side-effecting functions)",
-                             corpora=_shared.BOTH)
+                             corpora=_shared.BOTH), "C05.")
 
 
 def replay(ctx, data):
+  if "core_chunk" in data:
+    return _core.replay(ctx, data, "C05.")
   return _shared.replay_clause(ctx, data, "C05.")
